@@ -183,6 +183,11 @@ macro_rules! message {
 
                 Ok(&self.data[..data_len+6])
             }
+            /// Verification hook: raw view of the builder state (buffer, has_run).
+            #[cfg(rtcm_rs_verif)]
+            pub fn verif_state(&self) -> (&[u8;1029], bool) {
+                (&self.data, self.has_run)
+            }
             fn clear_data(&mut self) {
                 for d in self.data[1..].iter_mut() {
                     *d = 0;
